@@ -10,6 +10,7 @@ from typing import (
     ClassVar,
     Dict,
     List,
+    Literal,
     Optional,
     Set,
     Tuple,
@@ -261,6 +262,16 @@ else:
             )
 
         origin = get_origin(expected)
+
+        # Literal members must carry one of their listed values (as in Pydantic);
+        # this is what selects the variant of a discriminated Union such as
+        # Text/Image/Audio content.
+        if origin is Literal:
+            if not any(type(value) is type(opt) and value == opt for opt in get_args(expected)):
+                raise ValidationError(
+                    f"value is not one of {get_args(expected)}", current_path, "literal_error"
+                )
+            return value
 
         # Handle Union types properly
         if origin is Union:
